@@ -1,31 +1,51 @@
 /-
-  SimVerif.AcceptSys — the TCP handshake as an OPEN system (C07, C13): ONE acceptor `a` and
-  any number of other sockets on the shared network state `NetSt`, driven by the mechanism
+  SimVerif.AcceptSys — the TCP handshake as an OPEN system (C07, C13): ANY number of acceptors
+  and ANY number of other sockets on the shared network state `NetSt`, driven by the mechanism
   functions of SimVerif/Tcp.lean, unchanged:
 
-      listen            → `accListen`
-      connect c ep h    → `tcpConnect`          (async_connect on socket `c`)
-      accept op         → `accAsyncAccept`      (the three overloads: `.into h peer false`,
-                                                 `.into h peer true`, `.fresh h name`)
-      closeAcceptor     → `accClose`
-      deliverSyn i      → `accIncoming`         (the network hands packet `i` to the acceptor)
-      deliverSynAck i c → `tcpIncoming`         (… to socket `c`)
-      natRewrite i ext  → `natApply`            (packet `i` crosses a NAT hop while in flight)
+      openAcc a v4      → `accClose` then `tcpOpen`   (`acceptor::open`: closes first — stops
+                                                       listening, resets the queue —, then a fresh
+                                                       forwarder: a new LISTENING EPOCH begins)
+      bind o ep         → `tcpBind`                   (an acceptor, or a socket that is not connected;
+                                                       any endpoint: wildcard, one of the node's
+                                                       addresses, a foreign one, port 0 …)
+      openSock o v4     → `tcpOpen`                   (user `open` on a socket: closes it first)
+      listen a qs       → `accListen`
+      accept a op       → `accAsyncAccept`            (the three overloads: `.into h peer false`,
+                                                       `.into h peer true`, `.fresh h name`)
+      cancelAcc a       → `accCancel`
+      closeAcceptor a   → `accClose`                  (the epoch ends; may be followed by openAcc)
+      deliverSyn i a    → `accIncoming`               (the network hands SYN `i` to acceptor `a`)
+      deliverErr i a    → `accIncoming`               (… an error packet: a connector that gave
+                                                       up before being accepted)
+      connect c ep h    → `tcpConnect`                (async_connect on socket `c`)
+      cancel o          → `tcpCancel`                 (user cancel of a connector / accepted socket)
+      close o           → `tcpClose`                  (user close of a connector / accepted socket)
+      deliverSynAck i c → `tcpIncoming`               (… SYN-ACK `i` to socket `c`)
+      natRewrite i ext  → `natApply`                  (packet `i` crosses a NAT hop while in flight)
       tick t            → the clock
 
-  The network is the adversary: every packet a mechanism function fwdPkts goes into a bag;
+  The network is the adversary: every packet a mechanism function forwards goes into a bag;
   the adversary delivers SYNs and SYN-ACKs from the bag in ANY order, at any later time, or
   never, and may pass any packet through any number of NAT hops first. What the network
   guarantees is the side condition `HS.ok`: a packet is only ever handed to the socket its
   route ends at (`NetSt.routedTo`: the last hop is a forwarder that points at that socket —
   a detached forwarder swallows the packet, `forwardPkt` in Drv/Kernel.lean). The API
-  preconditions are there too: `async_connect` on a socket that is not connected (the C++
-  asserts `!m_connect_handler`), `async_accept` into a socket object other than the acceptor
-  (the socket-returning overload creates a NEW object).
+  preconditions are there too: acceptor calls on acceptor objects, socket calls on socket
+  objects, `async_connect` on a socket that is not connected (the C++ asserts
+  `!m_connect_handler`), `async_accept` into a socket object that is not an acceptor (the
+  socket-returning overload creates a NEW object).
 
-  Ghost logs: the order in which SYNs arrive at the acceptor (channel ids), accept
-  completions (which accept call, overload, completion posted, channel and forwarder of the
-  accepted socket), connect completions, dialled endpoints, NAT rewrites of SYNs.
+  LISTENING EPOCHS. `open` gives the acceptor a fresh forwarder (`newFwd`: ids are never
+  reused), `close` detaches it. The period between an `open` and the next `close` of an
+  acceptor — in which it may bind, listen (several times) and accept — is one listening epoch,
+  identified over the whole run (and across acceptors) by that forwarder id.
+
+  Ghost logs: the SYNs that arrived at an acceptor (epoch, channel id) in arrival order, accept
+  completions (acceptor, epoch, listening endpoint, which accept call, overload, completion
+  posted, channel and forwarder of the accepted socket), connect completions (success by
+  SYN-ACK, operation_aborted by the user's cancel / close), dials (socket, endpoint dialled,
+  the acceptor found there and its epoch), NAT rewrites of SYNs.
 -/
 import SimVerif.Nat
 
@@ -45,13 +65,20 @@ def AcceptOp.withEp : AcceptOp → Bool
 
 inductive HLbl where
   | tick (t : Int)
-  | listen (qs : Int)
+  | openAcc (a : String) (v4 : Bool)
+  | bind (o : String) (ep : Ep)
+  | openSock (o : String) (v4 : Bool)
+  | listen (a : String) (qs : Int)
+  | accept (a : String) (op : AcceptOp)
+  | cancelAcc (a : String)
+  | closeAcceptor (a : String)
+  | deliverSyn (i : Nat) (a : String)
+  | deliverErr (i : Nat) (a : String)
   | connect (c : String) (target : Ep) (h : Nat)
-  | natRewrite (i : Nat) (ext : String)
-  | deliverSyn (i : Nat)
-  | accept (op : AcceptOp)
+  | cancel (o : String)
+  | close (o : String)
   | deliverSynAck (i : Nat) (c : String)
-  | closeAcceptor
+  | natRewrite (i : Nat) (ext : String)
   deriving Repr
 
 /-- a connect that produced a channel and a SYN -/
@@ -61,22 +88,28 @@ structure Dial where
   target : Ep             -- the endpoint dialled
   ep0    : Ep             -- the connector's bound endpoint when it dialled
   fwd    : Option Nat     -- … and its forwarder
+  lsock  : String         -- the acceptor the registry had at `target`
+  epoch  : Nat            -- … and its listening epoch (= its forwarder)
   deriving Repr
 
 /-- an accept completing with success -/
 structure AccDone where
-  serial : Nat               -- which `accept` call (0-based)
+  acc    : String            -- the acceptor
+  epoch  : Nat               -- its listening epoch (= its forwarder)
+  lep    : Ep                -- the endpoint it is bound to
+  serial : Nat               -- which `accept` call on that acceptor (0-based)
   op     : Option AcceptOp   -- the overload that was outstanding
   compl  : Compl             -- the completion posted (handler, error code, text)
   cid    : Option Nat        -- the channel of the accepted socket right after
   fwd    : Option Nat        -- … and its forwarder
   deriving Repr
 
-/-- a connect completing with success -/
+/-- a connect completing: with success (SYN-ACK) or operation_aborted (user cancel / close) -/
 structure ConDone where
   sock : String
   h    : Nat
-  cid  : Option Nat          -- the socket's channel right after
+  ec   : Ec
+  cid  : Option Nat          -- the socket's channel when the completion was posted
   deriving Repr
 
 structure HS where
@@ -84,13 +117,12 @@ structure HS where
   now  : Int := 0
   bag  : List Pkt := []                  -- packets in flight
   -- ghosts
-  synLog   : List Nat := []              -- channels in the order their SYN arrived at the acceptor
+  synLog   : List (Nat × Nat) := []      -- (epoch, channel) in the order the SYNs arrived at acceptors
   accLog   : List AccDone := []
   conLog   : List ConDone := []
   dialLog  : List Dial := []
   natLog   : List (Nat × String) := []   -- (channel, external address) per NAT hop crossed by a SYN
-  accCalls : Nat := 0
-  deriving Repr
+  accCalls : String → Nat := fun _ => 0  -- `async_accept` calls made so far, per acceptor
 
 def fwdPkts (effs : List NEff) : List Pkt :=
   effs.filterMap (fun e => match e with | .forward p => some p | _ => none)
@@ -98,14 +130,27 @@ def fwdPkts (effs : List NEff) : List Pkt :=
 def okPosts (effs : List NEff) : List Compl :=
   effs.filterMap (fun e => match e with | .post c => if c.ec = .ok then some c else none | _ => none)
 
+/-- the arrivals of epoch `f`, in order -/
+def synAtL (l : List (Nat × Nat)) (f : Nat) : List Nat := (l.filter (fun x => x.1 == f)).map (·.2)
+/-- the accept completions of epoch `f`, in order -/
+def accAtL (l : List AccDone) (f : Nat) : List AccDone := l.filter (fun e => e.epoch == f)
+
+def HS.synAt (s : HS) (f : Nat) : List Nat := synAtL s.synLog f
+def HS.accAt (s : HS) (f : Nat) : List AccDone := accAtL s.accLog f
+
 /-- the accept outstanding on the acceptor -/
 def NetSt.pendingAccept (n : NetSt) (a : String) : Option AcceptOp :=
   ((n.tcp? a).bind (·.acc)).bind (·.acceptOp)
 
+/-- the current listening epoch of acceptor `a`: its forwarder -/
+def NetSt.epochOf (n : NetSt) (a : String) : Nat := ((n.tcp? a).bind (·.fwd)).getD 0
+def NetSt.boundOf (n : NetSt) (a : String) : Ep := ((n.tcp? a).map (·.bound)).getD {}
+
 /-- the successful accept completions among the effects of an acceptor function -/
-def accDones (serial : Nat) (pend : Option AcceptOp) (n' : NetSt) (effs : List NEff) : List AccDone :=
+def accDones (a : String) (epoch : Nat) (lep : Ep) (serial : Nat) (pend : Option AcceptOp) (n' : NetSt)
+    (effs : List NEff) : List AccDone :=
   (okPosts effs).map (fun c =>
-    { serial := serial, op := pend, compl := c,
+    { acc := a, epoch := epoch, lep := lep, serial := serial, op := pend, compl := c,
       cid := (pend.bind (fun op => n'.tcp? op.peer)).bind (·.chan),
       fwd := (pend.bind (fun op => n'.tcp? op.peer)).bind (·.fwd) })
 
@@ -115,15 +160,73 @@ def dials (c : String) (target : Ep) (n' : NetSt) (effs : List NEff) : List Dial
     if p.ty = .syn then
       p.chan.map (fun cid => { cid := cid, sock := c, target := target,
                                ep0 := ((n'.tcp? c).map (·.bound)).getD {},
-                               fwd := (n'.tcp? c).bind (·.fwd) })
+                               fwd := (n'.tcp? c).bind (·.fwd),
+                               lsock := (n'.reg.tcp.lookup target).getD "",
+                               epoch := n'.epochOf ((n'.reg.tcp.lookup target).getD "") })
     else none)
 
-def HS.step (a : String) (tp : TParams) (s : HS) : HLbl → HS
+/-- the connect of `o` that a user `cancel` / `close` is about to abort -/
+def pendAbort (n : NetSt) (o : String) : List ConDone :=
+  match n.tcp? o with
+  | some sk => (match sk.connectH with
+                | some h => [{ sock := o, h := h, ec := .aborted, cid := sk.chan }]
+                | none => [])
+  | none => []
+
+def HS.step (tp : TParams) (s : HS) : HLbl → HS
   | .tick t => { s with now := t }
-  | .listen qs => { s with net := (s.net.accListen a qs).1 }
+  | .openAcc a v4 =>
+    let r1 := s.net.accClose s.now a
+    let r2 := r1.1.tcpOpen s.now a v4
+    { s with net := r2.1, bag := s.bag ++ fwdPkts r1.2 ++ fwdPkts r2.2 }
+  | .bind o ep => { s with net := (s.net.tcpBind o ep).1 }
+  | .openSock o v4 =>
+    let r := s.net.tcpOpen s.now o v4
+    { s with net := r.1, bag := s.bag ++ fwdPkts r.2, conLog := s.conLog ++ pendAbort s.net o }
+  | .listen a qs => { s with net := (s.net.accListen a qs).1 }
+  | .accept a op =>
+    let r := s.net.accAsyncAccept s.now a op
+    { s with net := r.1, bag := s.bag ++ fwdPkts r.2,
+             accCalls := fun x => if x = a then s.accCalls a + 1 else s.accCalls x,
+             accLog := s.accLog ++ accDones a (s.net.epochOf a) (s.net.boundOf a) (s.accCalls a) (some op) r.1 r.2 }
+  | .cancelAcc a =>
+    let r := s.net.accCancel a
+    { s with net := r.1, bag := s.bag ++ fwdPkts r.2 }
+  | .closeAcceptor a =>
+    let r := s.net.accClose s.now a
+    { s with net := r.1, bag := s.bag ++ fwdPkts r.2 }
+  | .deliverSyn i a =>
+    match s.bag[i]? with
+    | none => s
+    | some pk =>
+      let r := s.net.accIncoming s.now a pk
+      { s with net := r.1, bag := s.bag.eraseIdx i ++ fwdPkts r.2,
+               synLog := s.synLog ++ (if pk.ty = .syn then pk.chan.toList.map (fun c => (s.net.epochOf a, c)) else []),
+               accLog := s.accLog ++ accDones a (s.net.epochOf a) (s.net.boundOf a) (s.accCalls a - 1)
+                                        (s.net.pendingAccept a) r.1 r.2 }
+  | .deliverErr i a =>
+    match s.bag[i]? with
+    | none => s
+    | some pk =>
+      let r := s.net.accIncoming s.now a pk
+      { s with net := r.1, bag := s.bag.eraseIdx i ++ fwdPkts r.2 }
   | .connect c target h =>
     let r := s.net.tcpConnect s.now c target h
     { s with net := r.1, bag := s.bag ++ fwdPkts r.2, dialLog := s.dialLog ++ dials c target r.1 r.2 }
+  | .cancel o =>
+    let r := s.net.tcpCancel o
+    { s with net := r.1, bag := s.bag ++ fwdPkts r.2, conLog := s.conLog ++ pendAbort s.net o }
+  | .close o =>
+    let r := s.net.tcpClose s.now o
+    { s with net := r.1, bag := s.bag ++ fwdPkts r.2, conLog := s.conLog ++ pendAbort s.net o }
+  | .deliverSynAck i c =>
+    match s.bag[i]? with
+    | none => s
+    | some pk =>
+      let r := s.net.tcpIncoming tp s.now c pk
+      { s with net := r.1, bag := s.bag.eraseIdx i ++ fwdPkts r.2,
+               conLog := s.conLog ++ (okPosts r.2).map (fun k =>
+                 { sock := c, h := k.h, ec := .ok, cid := (s.net.tcp? c).bind (·.chan) }) }
   | .natRewrite i ext =>
     match s.bag[i]? with
     | none => s
@@ -131,55 +234,46 @@ def HS.step (a : String) (tp : TParams) (s : HS) : HLbl → HS
       let r := natApply ext pk s.net.chans
       { s with bag := s.bag.set i r.1, net := { s.net with chans := r.2 },
                natLog := s.natLog ++ (if pk.ty = .syn then pk.chan.toList.map (fun c => (c, ext)) else []) }
-  | .deliverSyn i =>
-    match s.bag[i]? with
-    | none => s
-    | some pk =>
-      let r := s.net.accIncoming s.now a pk
-      { s with net := r.1, bag := s.bag.eraseIdx i ++ fwdPkts r.2,
-               synLog := s.synLog ++ (if pk.ty = .syn then pk.chan.toList else []),
-               accLog := s.accLog ++ accDones (s.accCalls - 1) (s.net.pendingAccept a) r.1 r.2 }
-  | .accept op =>
-    let r := s.net.accAsyncAccept s.now a op
-    { s with net := r.1, bag := s.bag ++ fwdPkts r.2, accCalls := s.accCalls + 1,
-             accLog := s.accLog ++ accDones s.accCalls (some op) r.1 r.2 }
-  | .deliverSynAck i c =>
-    match s.bag[i]? with
-    | none => s
-    | some pk =>
-      let r := s.net.tcpIncoming tp s.now c pk
-      { s with net := r.1, bag := s.bag.eraseIdx i ++ fwdPkts r.2,
-               conLog := s.conLog ++ (okPosts r.2).map (fun k => { sock := c, h := k.h, cid := (r.1.tcp? c).bind (·.chan) }) }
-  | .closeAcceptor =>
-    let r := s.net.accClose s.now a
-    { s with net := r.1, bag := s.bag ++ fwdPkts r.2 }
 
 /-- the route of `pk` ends at socket `name`: its last hop is a forwarder that points there -/
 def NetSt.routedTo (n : NetSt) (pk : Pkt) (name : String) : Prop :=
   ∃ f, pk.hops.getLast? = some (fwdHop f) ∧ n.fwdTarget f = some name
 
+/-- `a` names an acceptor object -/
+def NetSt.isAcc (n : NetSt) (a : String) : Prop := ∃ sk, n.tcp? a = some sk ∧ sk.acc.isSome
+/-- `o` names a socket object that is not an acceptor -/
+def NetSt.isSock (n : NetSt) (o : String) : Prop := ∃ sk, n.tcp? o = some sk ∧ sk.acc = none
+
 /-- what the network and the API preconditions guarantee about when a label can occur -/
-def HS.ok (a : String) (s : HS) : HLbl → Prop
-  | .connect c _ _ => c ≠ a ∧ ∃ sk, s.net.tcp? c = some sk ∧ sk.chan = none
-  | .accept (.into _ p _) => p ≠ a ∧ (s.net.tcp? p).isSome
-  | .accept (.fresh _ nn) => s.net.tcp? nn = none
-  | .deliverSyn i => ∃ pk, s.bag[i]? = some pk ∧ pk.ty = .syn ∧ s.net.routedTo pk a
-  | .deliverSynAck i c => c ≠ a ∧ ∃ pk, s.bag[i]? = some pk ∧ pk.ty = .synack ∧ s.net.routedTo pk c
+def HS.ok (s : HS) : HLbl → Prop
+  | .openAcc a _ => s.net.isAcc a
+  | .bind o _ => ∃ sk, s.net.tcp? o = some sk ∧ sk.chan = none
+  | .openSock o _ => s.net.isSock o
+  | .listen a _ => s.net.isAcc a
+  | .cancelAcc a => s.net.isAcc a
+  | .closeAcceptor a => s.net.isAcc a
+  | .accept a (.into _ p _) => s.net.isAcc a ∧ s.net.isSock p
+  | .accept a (.fresh _ nn) => s.net.isAcc a ∧ s.net.tcp? nn = none
+  | .deliverSyn i a => ∃ pk, s.bag[i]? = some pk ∧ pk.ty = .syn ∧ s.net.routedTo pk a
+  | .deliverErr i a => s.net.isAcc a ∧ ∃ pk, s.bag[i]? = some pk ∧ pk.ty = .err ∧ s.net.routedTo pk a
+  | .connect c _ _ => ∃ sk, s.net.tcp? c = some sk ∧ sk.acc = none ∧ sk.chan = none
+  | .cancel o => s.net.isSock o
+  | .close o => s.net.isSock o
+  | .deliverSynAck i c => ∃ pk, s.bag[i]? = some pk ∧ pk.ty = .synack ∧ s.net.routedTo pk c
   | _ => True
 
-def HS.okRun (a : String) (tp : TParams) : HS → List HLbl → Prop
+def HS.okRun (tp : TParams) : HS → List HLbl → Prop
   | _, [] => True
-  | s, l :: rest => s.ok a l ∧ HS.okRun a tp (s.step a tp l) rest
+  | s, l :: rest => s.ok l ∧ HS.okRun tp (s.step tp l) rest
 
-def HS.run (a : String) (tp : TParams) (s : HS) (ls : List HLbl) : HS := ls.foldl (HS.step a tp) s
+def HS.run (tp : TParams) (s : HS) (ls : List HLbl) : HS := ls.foldl (HS.step tp) s
 
-/-- Initial state: the acceptor `a` (on node `anode`) is open and bound to `aep` — registered
-    in `m_listen_sockets`, forwarder 0 — and not yet listening; the other sockets are fresh
-    objects (closed, unbound) on their nodes; any configuration. -/
-def HS.init (cfg : NetCfg) (a anode : String) (aep : Ep) (clients : List (String × String)) : HS :=
-  { net := { cfg := cfg, reg := { tcp := [(aep, a)] }, fwds := [some a],
-             tcps := (a, { node := anode, isOpen := true, isV4 := aep.isV4, bound := aep, fwd := some 0, acc := some {} })
-                      :: (clients.filter (fun c => c.1 != a)).map (fun c => (c.1, ({ node := c.2 } : TcpSock))) } }
+/-- Initial state: acceptor objects `accs` and socket objects `clients` (name, node), all
+    freshly constructed — closed, unbound, no forwarder —; any configuration. -/
+def HS.init (cfg : NetCfg) (accs clients : List (String × String)) : HS :=
+  { net := { cfg := cfg,
+             tcps := accs.map (fun c => (c.1, ({ node := c.2, acc := some {} } : TcpSock)))
+                      ++ clients.map (fun c => (c.1, ({ node := c.2 } : TcpSock))) } }
 
 /-- how side 1 sees an endpoint of side 0 after the NAT hops its SYN crossed: the address
     of the LAST one (none → the real address), the original port -/
